@@ -16,9 +16,9 @@ def ThrOK (info : List Info) : TSt → Prop
   | _ => True
 
 def CtxOK (f : Bytes) (pos : Nat) (c : RCtx) : Prop :=
-  IsSl f c.start c.acc ∧ pos = c.start + c.acc.length ∧ (∀ w, c.want = some w → c.acc.length ≤ w)
+  IsSl f c.start c.acc ∧ pos = c.start + c.acc.length ∧ True
 
-def SizeOK (c : RCtx) : Prop := 0 < c.size ∧ ∀ w, c.want = some w → c.acc.length + c.size ≤ w
+def SizeOK (c : RCtx) : Prop := 0 < c.size ∧ True
 
 def OutOK (f : Bytes) (e : Nat × Option Nat × Bytes) : Prop :=
   e.2.2 = (match e.2.1 with | some w => slice f e.1 w | none => f.drop e.1)
@@ -67,9 +67,35 @@ theorem thrOK_append {info : List Info} {st : TSt} (h : ThrOK info st) (m : List
 
 /-! ## finishing a read -/
 
+theorem resultOf_ok {f : Bytes} {c : RCtx} {pos : Nat} (hc : CtxOK f pos c)
+    (hdone : wantMet c = true ∨ f.length ≤ pos) : OutOK f (c.start, c.want, resultOf c) := by
+  obtain ⟨hsl, hpos, _⟩ := hc
+  unfold OutOK resultOf
+  simp only
+  cases hwant : c.want with
+  | some w =>
+    simp only
+    by_cases hge : w ≤ c.acc.length
+    · have ht := isSl_take hsl w
+      unfold IsSl at ht
+      rw [List.length_take, Nat.min_eq_left hge] at ht
+      exact ht
+    · have hlt : c.acc.length < w := by omega
+      rcases hdone with hm | he
+      · unfold wantMet at hm
+        simp only [hwant] at hm
+        have : c.acc.length ≥ w := by simpa using hm
+        omega
+      · rw [List.take_of_length_le (by omega)]
+        exact (isSl_at_eof hsl (by omega)).2 w (by omega)
+  | none =>
+    simp only
+    rcases hdone with hm | he
+    · unfold wantMet at hm; simp [hwant] at hm
+    · exact (isSl_at_eof hsl (by omega)).1
+
 theorem finish_inv {s : St} {c : RCtx} (hb : Base s) (hc : CtxOK s.file s.realpos c)
     (hdone : wantMet c = true ∨ s.file.length ≤ s.realpos) : Inv (finish s c) := by
-  obtain ⟨hsl, hpos, hw⟩ := hc
   refine ⟨⟨hb.pos, hb.bufs, hb.s2c, hb.ext, hb.thr, ?_⟩, ?_⟩
   · intro e he
     simp only [finish] at he
@@ -78,44 +104,23 @@ theorem finish_inv {s : St} {c : RCtx} (hb : Base s) (hc : CtxOK s.file s.realpo
     · exact hb.out e he
     · simp at he
       subst he
-      unfold OutOK
-      simp only
-      cases hwant : c.want with
-      | some w =>
-        simp only
-        have hle := hw w hwant
-        rcases hdone with hm | he
-        · unfold wantMet at hm
-          simp only [hwant] at hm
-          have : c.acc.length = w := by simp at hm; omega
-          rw [← this]; exact hsl
-        · exact (isSl_at_eof hsl (by omega)).2 w hle
-      | none =>
-        simp only
-        rcases hdone with hm | he
-        · unfold wantMet at hm; simp [hwant] at hm
-        · exact (isSl_at_eof hsl (by omega)).1
+      exact resultOf_ok hc hdone
   · simp [PcOK, finish]
 
 /-! ## the reader-local computation keeps the invariant -/
 
-theorem reqSize_ok {s : St} {c : RCtx} (hp : 0 < s.maxReq ∧ 0 < s.bufRead) (hm : wantMet c = false)
-    (hw : ∀ w, c.want = some w → c.acc.length ≤ w) :
-    0 < reqSize s c ∧ ∀ w, c.want = some w → c.acc.length + reqSize s c ≤ w := by
+theorem reqSize_ok {s : St} {c : RCtx} (hp : 0 < s.maxReq ∧ 0 < s.bufRead) (hm : wantMet c = false) :
+    0 < reqSize s c := by
   unfold reqSize
   unfold wantMet at hm
   cases hwant : c.want with
   | some w =>
     simp only [hwant] at hm ⊢
     have : c.acc.length < w := by simpa using hm
-    constructor
-    · omega
-    · intro w' hw'; cases hw'; omega
+    split <;> omega
   | none =>
     simp only
-    constructor
-    · omega
-    · intro w' hw'; cases hw'
+    omega
 
 theorem advance_inv : ∀ (fuel : Nat) (s : St) (c : RCtx), Base s → CtxOK s.file s.realpos c → Inv (advance fuel s c) := by
   intro fuel
@@ -131,9 +136,9 @@ theorem advance_inv : ∀ (fuel : Nat) (s : St) (c : RCtx), Base s → CtxOK s.f
       exact finish_inv hb hc (Or.inl hm)
     · have hm' : wantMet c = false := by simpa using hm
       simp only [hm', Bool.false_eq_true, if_false]
-      obtain ⟨hsz, hszw⟩ := reqSize_ok hb.pos hm' hc.2.2
+      have hsz := reqSize_ok hb.pos hm'
       have hc1 : CtxOK s.file s.realpos { c with size := reqSize s c } := hc
-      have hs1 : SizeOK { c with size := reqSize s c } := ⟨hsz, hszw⟩
+      have hs1 : SizeOK { c with size := reqSize s c } := ⟨hsz, trivial⟩
       by_cases hp : s.prefetching = true
       · simp only [hp, if_true]
         cases hib : inBuffers s.bufs s.realpos with
@@ -157,9 +162,7 @@ theorem advance_inv : ∀ (fuel : Nat) (s : St) (c : RCtx), Base s → CtxOK s.f
             · apply isSl_append hsl
               rw [← hpos]; exact t2
             · simp only [List.length_append]; omega
-            · intro w hw'
-              have := hszw w hw'
-              simp only [List.length_append]; omega
+            · trivial
       · simp only [hp, Bool.false_eq_true, if_false]
         exact ⟨⟨hb.pos, hb.bufs, hb.s2c, hb.ext, hb.thr, hb.out⟩, by simpa [PcOK] using ⟨hc1, hs1⟩⟩
 
@@ -378,7 +381,22 @@ theorem base_startPrefetch {s : St} (hb : Base s) (ch : List Chunk) (cap : Optio
   · exact hb.thr t h
   · subst h; trivial
 
-theorem step_rOp_inv {s s' : St} {op : Op} (hi : Inv s) (h : step s (.rOp op) = some s') : Inv s' := by
+def pcCtx : Pc → Option RCtx
+  | .idle => none
+  | .cont c => some c
+  | .recvPf c => some c
+  | .dispPf c _ _ => some c
+  | .allocSync c => some c
+  | .sendSync c _ => some c
+  | .recvSync c _ => some c
+  | .dispSync c _ _ _ => some c
+
+/-- BufferedFile's read-ahead: `_rbuffer` holds the file's bytes at `_pos`, and between calls
+    `_realpos = _pos + len(_rbuffer)` -/
+def RbOK (s : St) : Prop :=
+  IsSl s.file s.pos s.rbuf ∧ (pcCtx s.pc = none → s.realpos = s.pos + s.rbuf.length)
+
+theorem step_rOp_inv {s s' : St} {op : Op} (hi : Inv s) (hrb : RbOK s) (h : step s (.rOp op) = some s') : Inv s' := by
   obtain ⟨hb, hp⟩ := hi
   simp only [step] at h
   cases hpc : s.pc with
@@ -392,7 +410,12 @@ theorem step_rOp_inv {s s' : St} {op : Op} (hi : Inv s) (h : step s (.rOp op) = 
     | read want =>
       simp only at h; cases h
       apply advance_inv _ _ _ hb
-      exact ⟨isSl_nil _ _, by simp, by intro w _; simp⟩
+      exact ⟨hrb.1, hrb.2 (by rw [hpc]; rfl), trivial⟩
+    | readAt off want =>
+      simp only at h; cases h
+      apply advance_inv
+      · exact ⟨hb.pos, hb.bufs, hb.s2c, hb.ext, hb.thr, hb.out⟩
+      · exact ⟨isSl_nil _ _, by simp, trivial⟩
     | prefetch fs cap =>
       simp only at h
       split at h
@@ -481,9 +504,7 @@ theorem step_rStep_inv {s s' : St} (hi : Inv s) (h : step s .rStep = some s') : 
             · apply isSl_append h1
               rw [← h2]; exact hsl
             · simp only [List.length_append]; omega
-            · intro w' hw'
-              have := hsz.2 w' hw'
-              simp only [List.length_append]; omega
+            · trivial
         | eof =>
           simp only at h; cases h
           apply finish_inv ⟨hb1.pos, hb1.bufs, hb1.s2c, hb1.ext, hb1.thr, hb1.out⟩ hctx
@@ -569,6 +590,7 @@ theorem step_file {s s' : St} {a : Act} (h : step s a = some s') : s'.file = s.f
     · cases op with
       | seek o => cases h; rfl
       | read w => cases h; exact advance_file _ _ _
+      | readAt o w => cases h; exact advance_file _ _ _
       | prefetch f c => simp only at h; split at h <;> (cases h; rfl)
       | readv ch c => simp only at h; split at h <;> (cases h; rfl)
     · cases h
@@ -632,7 +654,7 @@ theorem run_file (s : St) (as : List Act) : (run s as).file = s.file := by
     | none => rfl
     | some s' => simp only [Option.getD_some]; exact step_file hs
 
-theorem step_inv {s s' : St} {a : Act} (hi : Inv s) (h : step s a = some s') : Inv s' := by
+theorem step_inv {s s' : St} {a : Act} (hi : Inv s) (hrb : RbOK s) (h : step s a = some s') : Inv s' := by
   cases a with
   | serve k => exact step_serve_inv hi h
   | serveFail c => exact step_serveFail_inv hi h
@@ -640,20 +662,250 @@ theorem step_inv {s s' : St} {a : Act} (hi : Inv s) (h : step s a = some s') : I
   | tAlloc i => exact step_thread_inv hi (Or.inr (Or.inl h))
   | tSend i => exact step_thread_inv hi (Or.inr (Or.inr (Or.inl h)))
   | tReg i => exact step_thread_inv hi (Or.inr (Or.inr (Or.inr h)))
-  | rOp op => exact step_rOp_inv hi h
+  | rOp op => exact step_rOp_inv hi hrb h
   | rStep => exact step_rStep_inv hi h
 
-theorem run_inv {s : St} (hi : Inv s) (as : List Act) : Inv (run s as) := by
+/-! ## the read-ahead invariant along every step -/
+
+theorem resultOf_le (c : RCtx) : (resultOf c).length ≤ c.acc.length := by
+  unfold resultOf
+  split
+  · rw [List.length_take]; omega
+  · exact Nat.le_refl _
+
+theorem finish_rb {s : St} {c : RCtx} (hc : CtxOK s.file s.realpos c) : RbOK (finish s c) := by
+  obtain ⟨hsl, hpos, _⟩ := hc
+  have hle := resultOf_le c
+  refine ⟨?_, fun _ => ?_⟩
+  · show IsSl s.file (c.start + (resultOf c).length) (c.acc.drop (resultOf c).length)
+    exact isSl_drop hsl _
+  · show s.realpos = c.start + (resultOf c).length + (c.acc.drop (resultOf c).length).length
+    rw [List.length_drop]; omega
+
+theorem advance_rb : ∀ (fuel : Nat) (s : St) (c : RCtx), Base s → CtxOK s.file s.realpos c →
+    IsSl s.file s.pos s.rbuf → RbOK (advance fuel s c) := by
+  intro fuel
+  induction fuel with
+  | zero => intro s c _ _ hr; exact ⟨hr, fun h => by simp [advance, pcCtx] at h⟩
+  | succ fuel ih =>
+    intro s c hb hc hr
+    unfold advance
+    by_cases hm : wantMet c = true
+    · simp only [hm, if_true]
+      exact finish_rb hc
+    · have hm' : wantMet c = false := by simpa using hm
+      simp only [hm', Bool.false_eq_true, if_false]
+      have hsz := reqSize_ok hb.pos hm'
+      by_cases hp : s.prefetching = true
+      · simp only [hp, if_true]
+        cases hib : inBuffers s.bufs s.realpos with
+        | none =>
+          simp only
+          by_cases hd : s.done = true
+          · simp only [hd, if_true]; exact ⟨hr, fun h => by simp [pcCtx] at h⟩
+          · simp only [hd, Bool.false_eq_true, if_false]; exact ⟨hr, fun h => by simp [pcCtx] at h⟩
+        | some idx =>
+          simp only
+          obtain ⟨pre, hg, hle, hlt⟩ := inBuffers_some hib
+          obtain ⟨t1, t2, t3, t4⟩ := takeBuf_spec (f := s.file) (size := reqSize s c) hb.bufs hg hle hlt hsz
+          have hne : ¬ (takeBuf s.bufs idx s.realpos (reqSize s c)).2.length = 0 := by omega
+          simp only [hne, if_false]
+          apply ih
+          · exact ⟨hb.pos, t1, hb.s2c, hb.ext, hb.thr, hb.out⟩
+          · obtain ⟨hsl, hpos, _⟩ := hc
+            refine ⟨?_, ?_, trivial⟩
+            · apply isSl_append hsl
+              rw [← hpos]; exact t2
+            · simp only [List.length_append]; omega
+          · exact hr
+      · simp only [hp, Bool.false_eq_true, if_false]; exact ⟨hr, fun h => by simp [pcCtx] at h⟩
+
+theorem raiseRead_rb (s : St) (c : RCtx) (code : Nat) : RbOK (raiseRead s c code) :=
+  ⟨isSl_nil _ _, fun _ => by simp [raiseRead]⟩
+
+theorem afterCheck_rb {s : St} {c : RCtx} (hb : Base s) (hc : CtxOK s.file s.realpos c)
+    (hr : IsSl s.file s.pos s.rbuf) : RbOK (afterCheck s c) := by
+  unfold afterCheck
+  split
+  · exact raiseRead_rb _ c _
+  · exact advance_rb _ _ _ hb hc hr
+
+theorem asyncResponse_rbframe {s s1 : St} {n : Nat} {r : Resp} (h : asyncResponse s n r = some s1) :
+    s1.pos = s.pos ∧ s1.rbuf = s.rbuf := by
+  unfold asyncResponse at h
+  split at h
+  · cases h
+  · split at h <;> (cases h; exact ⟨rfl, rfl⟩)
+
+theorem step_rb {s s' : St} {a : Act} (hi : Inv s) (hrb : RbOK s) (h : step s a = some s') : RbOK s' := by
+  obtain ⟨hb, hp⟩ := hi
+  cases a with
+  | serve k =>
+    simp only [step] at h
+    split at h
+    · cases h
+    · split at h
+      · cases h
+      · cases h; exact hrb
+  | serveFail k =>
+    simp only [step] at h
+    split at h
+    · cases h
+    · split at h
+      · cases h
+      · cases h; exact hrb
+  | tCheck i =>
+    simp only [step] at h
+    split at h
+    · split at h
+      · cases h; exact hrb
+      · cases h
+    · cases h
+  | tAlloc i => simp only [step] at h; split at h <;> (cases h; try exact hrb)
+  | tSend i => simp only [step] at h; split at h <;> (cases h; try exact hrb)
+  | tReg i => simp only [step] at h; split at h <;> (cases h; try exact hrb)
+  | rOp op =>
+    simp only [step] at h
+    cases hpc : s.pc with
+    | idle =>
+      simp only [hpc] at h
+      have hrb' := hrb
+      unfold RbOK at hrb
+      rw [hpc] at hrb
+      cases op with
+      | seek off =>
+        simp only at h; cases h
+        exact ⟨isSl_nil _ _, fun _ => by simp⟩
+      | read want =>
+        simp only at h; cases h
+        exact advance_rb _ _ _ hb ⟨hrb.1, hrb.2 rfl, trivial⟩ hrb.1
+      | readAt off want =>
+        simp only at h; cases h
+        apply advance_rb
+        · exact ⟨hb.pos, hb.bufs, hb.s2c, hb.ext, hb.thr, hb.out⟩
+        · exact ⟨isSl_nil _ _, by simp, trivial⟩
+        · exact isSl_nil _ _
+      | prefetch fs cap =>
+        simp only at h
+        split at h
+        · cases h; exact hrb'
+        · cases h
+          refine ⟨hrb.1, fun _ => hrb.2 rfl⟩
+      | readv ch cap =>
+        simp only at h
+        split at h
+        · cases h; exact hrb'
+        · cases h
+          refine ⟨hrb.1, fun _ => hrb.2 rfl⟩
+    | _ => simp [hpc] at h
+  | rStep =>
+    simp only [step] at h
+    unfold PcOK at hp
+    have hr := hrb.1
+    cases hpc : s.pc with
+    | idle => simp [hpc] at h
+    | cont c =>
+      simp only [hpc] at h hp; cases h
+      exact advance_rb _ _ _ hb hp hr
+    | recvPf c =>
+      simp only [hpc] at h hp
+      cases hq : s.s2c with
+      | nil => simp [hq] at h
+      | cons e rest =>
+        obtain ⟨num, r⟩ := e
+        simp only [hq] at h
+        have hb1 : Base { s with s2c := rest } :=
+          ⟨hb.pos, hb.bufs, fun e he => hb.s2c e (by rw [hq]; exact List.mem_cons_of_mem _ he), hb.ext, hb.thr, hb.out⟩
+        split at h
+        · cases h; exact ⟨hr, fun hc => by simp [pcCtx] at hc⟩
+        · cases h
+          exact afterCheck_rb ⟨hb1.pos, hb1.bufs, hb1.s2c, hb1.ext, hb1.thr, hb1.out⟩ hp hr
+    | dispPf c num r =>
+      simp only [hpc] at h hp
+      cases ha' : asyncResponse s num r with
+      | none => simp [ha'] at h
+      | some s1 =>
+        simp only [ha'] at h; cases h
+        obtain ⟨hb1, hf, hrp, _, _⟩ := asyncResponse_base hb hp.2 ha'
+        obtain ⟨f1, f2⟩ := asyncResponse_rbframe ha'
+        apply afterCheck_rb hb1
+        · rw [hf, hrp]; exact hp.1
+        · rw [hf, f1, f2]; exact hr
+    | allocSync c =>
+      simp only [hpc] at h; cases h
+      exact ⟨hr, fun hc => by simp [pcCtx] at hc⟩
+    | sendSync c n =>
+      simp only [hpc] at h; cases h
+      exact ⟨hr, fun hc => by simp [pcCtx] at hc⟩
+    | recvSync c num =>
+      simp only [hpc] at h hp
+      obtain ⟨hctx, hsz, hsync⟩ := hp
+      cases hq : s.s2c with
+      | nil => simp [hq] at h
+      | cons e rest =>
+        obtain ⟨n', r⟩ := e
+        simp only [hq] at h
+        have hrr : RespAt s.info s.file n' r := hb.s2c (n', r) (by rw [hq]; simp)
+        have hb1 : Base { s with s2c := rest } :=
+          ⟨hb.pos, hb.bufs, fun e he => hb.s2c e (by rw [hq]; exact List.mem_cons_of_mem _ he), hb.ext, hb.thr, hb.out⟩
+        by_cases hn : n' = num
+        · simp only [hn, if_true] at h
+          subst hn
+          obtain ⟨i, hi, hok⟩ := hrr
+          obtain ⟨w, hw⟩ := hsync
+          rw [hw] at hi
+          have hi' : i = ⟨s.realpos, c.size, w⟩ := by simpa using hi.symm
+          subst hi'
+          cases r with
+          | data d =>
+            simp only at h
+            obtain ⟨hsl, hdpos, hdlen⟩ := hok
+            simp only at hsl hdlen
+            have hne : ¬ d.length = 0 := by omega
+            simp only [hne, if_false] at h
+            cases h
+            apply advance_rb
+            · exact ⟨hb1.pos, hb1.bufs, hb1.s2c, hb1.ext, hb1.thr, hb1.out⟩
+            · obtain ⟨h1, h2, _⟩ := hctx
+              refine ⟨?_, ?_, trivial⟩
+              · apply isSl_append h1
+                rw [← h2]; exact hsl
+              · simp only [List.length_append]; omega
+            · exact hr
+          | eof =>
+            simp only at h; cases h
+            exact finish_rb (s := { s with s2c := rest }) hctx
+          | err code =>
+            simp only at h; cases h
+            exact raiseRead_rb _ c code
+        · simp only [hn, if_false] at h
+          split at h
+          · cases h; exact ⟨hr, fun hc => by simp [pcCtx] at hc⟩
+          · cases h; exact ⟨hr, fun hc => by simp [pcCtx] at hc⟩
+    | dispSync c num n' r =>
+      simp only [hpc] at h hp
+      cases ha' : asyncResponse s n' r with
+      | none => simp [ha'] at h
+      | some s1 =>
+        simp only [ha'] at h; cases h
+        obtain ⟨f1, f2⟩ := asyncResponse_rbframe ha'
+        refine ⟨?_, fun hc => by simp [pcCtx] at hc⟩
+        show IsSl s1.file s1.pos s1.rbuf
+        rw [asyncResponse_file ha', f1, f2]; exact hr
+
+theorem run_inv {s : St} (hi : Inv s) (hrb : RbOK s) (as : List Act) : Inv (run s as) ∧ RbOK (run s as) := by
   induction as generalizing s with
-  | nil => exact hi
+  | nil => exact ⟨hi, hrb⟩
   | cons a as ih =>
     simp only [run]
-    apply ih
     cases hs : step s a with
-    | none => simpa using hi
-    | some s' => simpa using step_inv hi hs
+    | none => simpa using ih hi hrb
+    | some s' => simpa using ih (step_inv hi hrb hs) (step_rb hi hrb hs)
 
-theorem init_inv (file : Bytes) (maxReq : Nat) (h : 0 < maxReq) : Inv (init file maxReq) := by
+theorem init_inv (file : Bytes) (maxReq : Nat) (h : 0 < maxReq) (bufsize : Nat := 0) : Inv (init file maxReq bufsize) := by
   refine ⟨⟨⟨h, by simp [init]⟩, ?_, ?_, ?_, ?_, ?_⟩, by simp [PcOK, init]⟩ <;> simp [init]
+
+theorem init_rb (file : Bytes) (maxReq : Nat) (bufsize : Nat := 0) : RbOK (init file maxReq bufsize) :=
+  ⟨isSl_nil _ _, fun _ => by simp [init]⟩
 
 end PV.Prefetch
